@@ -187,7 +187,7 @@ impl C06 {
         let mut multi: Vec<Vec<Vec<u8>>> = vec![vec![]; NSLOTS];
         let desc = J::obj(vec![("calls", J::s(calls.iter().map(|&s| SLOT_NAMES[s]).collect::<Vec<_>>().join(","))), ("workload", J::s(label))]);
         let built = catch(|| {
-            let mut b = Builder::new();
+            let mut b = if ctx.rng.chance(1, 4) { Builder::default() } else { Builder::new() };
             for &s in calls {
                 let (nb, img) = call_slot(&mut ctx.rng, b, s, small);
                 b = nb;
